@@ -46,12 +46,12 @@ func serveLoop(r *R) (serve *ssa.Function, goStmt *ssa.Go, connFn *ssa.Function)
 
 func c16r1(r *R) {
 	_, _, sc := serveLoop(r)
-	res := countOnPaths(sc, func(i ssa.Instruction) int {
+	res := countOnPaths(sc, countWithCallees(func(i ssa.Instruction) int {
 		if isCall(i, nMetricInc) {
 			return 1
 		}
 		return 0
-	})
+	}, 2))
 	o := r.Ob("C16.R1", "exactly-once:"+funcName(sc)).At(sc.Pos())
 	for _, s := range callsIn(sc, nMetricInc) {
 		o.AtI(s)
@@ -183,6 +183,7 @@ func c16r3(r *R) {
 		return isCall && cc != nil && calleeName(cc) == "" && c.Expr(cc.Value) == "p0.Done"
 	}, isReturn)
 	o5.Check(p == nil, "a path through TLSClientHelloConn.Close does not call Done: the per-connection goroutine never gets to count that connection: %v", p)
+	handoffUnbuffered(r, "C16.R3")
 }
 
 func c16r4(r *R) {
@@ -235,7 +236,9 @@ func c16r4(r *R) {
 	for _, s := range callsIn(inc, "(github.com/prometheus/client_golang/prometheus.Counter).Inc") {
 		e := c.Expr(callOf(s).Value)
 		o3.AtI(s)
-		o3.Check(strings.Contains(e, "WithLabelValues(p0.metricRequestsTotal, ") && strings.Contains(e, "&varargs"), "Inc receiver is %s", e)
+		wl, direct := callOf(s).Value.(*ssa.Call)
+		o3.Check(direct && strings.HasSuffix(calleeName(&wl.Call), ".CounterVec).WithLabelValues") && strings.Contains(e, "WithLabelValues(p0.metricRequestsTotal, "),
+			"the counter incremented is %s, want directly metricRequestsTotal.WithLabelValues(ok, negotiatedProtocol) of this call (a cached/looked-up counter can carry another connection's labels)", e)
 		// label value order
 		for _, w := range callsIn(inc, "(*github.com/prometheus/client_golang/prometheus.CounterVec).WithLabelValues") {
 			els := variadicElems(callOf(w).Args[1])
@@ -244,6 +247,17 @@ func c16r4(r *R) {
 			}
 		}
 	}
+	eachInstr(inc, func(i ssa.Instruction) {
+		if cc := callOf(i); cc != nil {
+			n := calleeName(cc)
+			if strings.HasPrefix(n, "(*sync.Map).") || strings.HasPrefix(n, "(*sync.Pool).") {
+				o3.AtI(i).Fail("metricsRequestsTotalInc keeps state in %s", n)
+			}
+		}
+		if _, ok := i.(*ssa.MapUpdate); ok {
+			o3.AtI(i).Fail("metricsRequestsTotalInc writes a map (a label cache)")
+		}
+	})
 	// label names in registration
 	reg := c.Method("pkg/proxyserver", "Server", "registerMetrics")
 	r.need(reg != nil, "registerMetrics not found")
